@@ -80,7 +80,8 @@ class C11(Check):
             "test_wells/clear; insert/addExtra/convertToSI/convertFromSI and the public data members), plus each class's "
             "serializationTestObject() (enumerated); same three-generation oracle, the observation being every public getter over the "
             "names the history used and names it never used.  Non-trivial dynamic case: history writing >= 10 distinct entries of >= 3 "
-            "kinds; distinct by hash of (class, constructor arguments, history).")
+            "kinds; distinct by hash of (class, constructor arguments, history)."
+            " Extended during the build phase: static-section variations (report mnemonics and integer controls, region / fault multipliers, PLYSHLOG with every index-record shape, ROCKTAB), rarely used keywords (kw_rare, kw_wellextra, kw_groupextra), UDQ-valued WSEGVALV area; PLYSHLOG and ROCKTAB tables are observed through their typed getters (the member dump shares serializeOp with the round trip).")
     ASSUMPTIONS = ["an EclipseState's grid and field properties travel separately (documented) and are not observed",
                    "members with no public getter and absent from operator== and serializeOp are invisible",
                    "byte equality of re-packs is not required (unordered containers), only equal length and meaning",
